@@ -21,7 +21,9 @@ func scAPIRef(t scT) ggql.Type {
 // scAPIExpressible: what scAPIType can build (no extension, directive use, default or description: those
 // carry Go values whose SDL reading is part of the reader, not of AddTypes)
 func scAPIExpressible(it scItem) bool {
-	if it.Ext || it.Desc != "" || len(it.Dirs) > 0 || it.K == kDirective {
+	// (a scalar neither: `scalar X` in SDL is a string-like scalar with coercers of ggql's own; a bare
+	// ggql.Scalar value is no input or output type, an application embeds it in a type of its own)
+	if it.Ext || it.Desc != "" || len(it.Dirs) > 0 || it.K == kDirective || it.K == kScalar {
 		return false
 	}
 	for _, f := range it.Fields {
@@ -66,8 +68,6 @@ func scAPIFields(it scItem, add func(*ggql.FieldDef) error) error {
 // twice): the load is then refused before AddTypes is reached, as the reader refuses the text.
 func scAPIType(root *ggql.Root, it scItem) (ggql.Type, error) {
 	switch it.K {
-	case kScalar:
-		return &ggql.Scalar{Base: ggql.Base{N: scTypeName(it.N)}}, nil
 	case kObject:
 		o := &ggql.Object{Base: ggql.Base{N: scTypeName(it.N)}}
 		for _, i := range it.Ifaces {
